@@ -143,7 +143,7 @@ func main() {
 	}
 	prog, _ := ssautil.AllPackages(pkgs, ssa.InstantiateGenerics)
 	eng := &Engine{prog: prog, pkgs: pkgs, ssaPkgs: map[string]*ssa.Package{}, stubMap: cfg.Stubs,
-		blackhole: append(append([]string{}, defaultBlackhole...), cfg.Blackhole...), trace: *trace, env: cfg.Env, maxprocs: cfg.MaxProcs}
+		blackhole: append(append([]string{}, defaultBlackhole...), cfg.Blackhole...), trace: *trace, env: cfg.Env, maxprocs: cfg.MaxProcs, tier: *tier}
 	if eng.maxprocs == 0 {
 		eng.maxprocs = 1
 	}
